@@ -29,7 +29,7 @@ for fn in sorted(glob.glob(os.path.join(HERE, "..", "harness", "props", "c*.mani
     except Exception as e:  # a half-written snippet must not invalidate the manifest
         print("skipping", fn, e)
         continue
-    if d.get("claim", True) and all(k in d for k in ("text", "technique", "note")):
+    if d.get("claim", False) and all(k in d for k in ("text", "technique", "note")):
         CHECKS[pid] = dict(text=d["text"], ref=d.get("ref", f"§5 {pid}"), technique=d["technique"], note=d["note"])
     elif "not_applicable_reason" in d:
         NOT_YET[pid] = d["not_applicable_reason"]
